@@ -44,7 +44,7 @@ func init() {
 }
 
 func c19Groups(tier string) []core.Group {
-	n, per := 64, 32
+	n, per := 128, 64
 	if tier == "thorough" {
 		n, per = 256, 240
 	}
@@ -95,6 +95,8 @@ type c19State struct {
 	pool   bool
 	failed bool
 	debug  bool
+	// afterGC is called after a step that ran the collector: addresses may be reused from then on, so the pool trace starts afresh
+	afterGC func()
 }
 
 var c19Shapes = [][]int{{6}, {2, 3}, {3, 2}, {3, 4}, {4, 3}, {2, 2, 3}, {2, 3, 2}, {4}, {1, 4}, {3, 1}, {2, 2, 2, 2}}
@@ -578,7 +580,13 @@ func (s *c19State) next() *c19Act {
 		s.app = append(s.app[:i], s.app[i+1:]...)
 		return &c19Act{name: "app:ReturnInts", run: func() error { tensor.ReturnInts(sl.full); return nil }}
 	case 36:
-		return &c19Act{name: "gc+churn", run: func() error { churn(); return nil }}
+		return &c19Act{name: "gc+churn", run: func() error {
+			churn()
+			if s.afterGC != nil {
+				s.afterGC()
+			}
+			return nil
+		}}
 	case 37:
 		// a burst of constructions drains the pools: whatever was returned is issued again now
 		rank := 1 + rng.Intn(3)
@@ -1060,17 +1068,58 @@ func c19Batch(c *core.Ctx, batch, per int) {
 		tensor.UsePool()
 		c19DrainPools()
 		gcWas := debug.SetGCPercent(-1)
+		// pool trace: with the collector off an address names one array for the whole program, so an array handed back twice
+		// with no borrow in between sits in the pool twice and will be issued to two owners
+		inPool := map[[2]uintptr]bool{}
+		doubleReturn := ""
+		poolEvents := 0
+		tensor.VerifSetPoolHook(func(kind int, ptr uintptr, l, cp int) {
+			if ptr == 0 {
+				return
+			}
+			poolEvents++
+			k := [2]uintptr{uintptr(kind / 2), ptr}
+			switch kind {
+			case 0, 2:
+				inPool[k] = false
+			case 1, 3:
+				if inPool[k] && doubleReturn == "" {
+					doubleReturn = tensor.VerifPoolEventKinds[kind]
+				}
+				inPool[k] = true
+			}
+		})
 		rng := rand.New(rand.NewSource(core.SeedFor(c.Seed, fmt.Sprintf("c19/%d/%d", batch, pi))))
 		s := &c19State{c: c, rng: rng, pool: true, debug: os.Getenv("VERIF_C19_DEBUG") == fmt.Sprintf("%d/%d", batch, pi)}
+		s.afterGC = func() {
+			for k := range inPool {
+				delete(inPool, k)
+			}
+		}
 		length := 5 + rng.Intn(196)
 		c.Begin(fmt.Sprintf("program%d", pi))
 		for i := 0; i < length; i++ {
 			if !s.step(pi, i) {
 				break // everything after the first corruption of a program would be its consequence: one program, one finding
 			}
+			if doubleReturn != "" {
+				op := s.hist[len(s.hist)-1]
+				if j := strings.IndexAny(op, " /"); j > 0 {
+					op = op[:j]
+				}
+				h := s.hist
+				if len(h) > 60 {
+					h = h[len(h)-60:]
+				}
+				c.Violation(core.Sig(op, "pool-double-return", doubleReturn), fmt.Sprintf("prog/program%d/step%d/%s", pi, i, op),
+					map[string]interface{}{"program": pi, "step": i, "history": append([]string(nil), h...)}, "an array is returned to its pool once per borrow", "returned again while already in the pool")
+				break
+			}
 		}
+		tensor.VerifSetPoolHook(nil)
 		debug.SetGCPercent(gcWas)
 		c.Extra("program_steps", len(s.hist))
+		c.Extra("pool_events", poolEvents)
 	}
 	tensor.UsePool()
 	// negative control: a change of an undesignated tensor is noticed by the comparison
